@@ -149,6 +149,16 @@ func genWorld(c *fw.Ctx, g *gen, proto string) *world {
 			w.MGPaths = append(w.MGPaths, w.MGPaths[0])
 			g.feat("multiget:duplicate-href")
 		}
+		if g.chance(20) {
+			// a long request (the objects named over and over): sizes around
+			// the round numbers at which an implementation might batch
+			n := []int{99, 100, 101, 128, 150, 199, 200, 201, 257, 1000}[g.r.Intn(10)]
+			base := append([]string(nil), w.MGPaths...)
+			for len(w.MGPaths) < n {
+				w.MGPaths = append(w.MGPaths, base[len(w.MGPaths)%len(base)])
+			}
+			g.feat("multiget:long-href-list")
+		}
 	}
 	if len(failIdx) > 0 {
 		var l []int
